@@ -36,6 +36,7 @@ type Program struct {
 	GOOS     string
 	GOARCH   string
 	NumFuncs int
+	Inlined  *InlineStats // non-nil for the inlined view
 }
 
 // LoadOpts selects the build configuration.
@@ -43,6 +44,10 @@ type LoadOpts struct {
 	Dir    string
 	GOOS   string
 	GOARCH string
+	// Inline builds the inlined view (inline.go): static calls to unexported helpers that the
+	// rules do not know by name (KeepName) are expanded in place before SSA construction.
+	Inline   bool
+	KeepName func(string) bool
 }
 
 // Load type-checks ./... in dir (Tests=false) and builds SSA. It never writes to dir:
@@ -120,6 +125,13 @@ func Load(o LoadOpts) (*Program, error) {
 		if p.Pkgs[w] == nil {
 			return nil, fmt.Errorf("package %s not loaded (got %d packages)", w, len(p.All))
 		}
+	}
+	if o.Inline {
+		st, err := buildInlinedView(initial, o.KeepName)
+		if err != nil {
+			return nil, err
+		}
+		p.Inlined = st
 	}
 	prog, _ := ssautil.AllPackages(initial, ssa.InstantiateGenerics)
 	prog.Build()
